@@ -7,6 +7,14 @@ MINE = {"model:meta", "returned-value", "result-class", "store-state:metadata-ga
 
 def menu_fn(w):
     m = metadata_menu(w)
+    # the other documented kinds of the metadata argument: Path, open binary file and in-memory stream (the two
+    # streams positioned at a solver-chosen offset; the whole document is stored and the stream left as it was)
+    for kind in ("Path", "stream", "bytesio"):
+        for v in range(w.ND):
+            for f in w.formats[:2]:
+                n = len(w.docs[v])
+                off = None if n <= 64 else [0, 1, 4096, 8192, n - 1, n]
+                m.append(step.StoreMeta(0, v, f, kind=kind, offset=off if kind != "Path" else 0))
     for i in range(w.NP):
         m.append(step.Delete(i))
     # the same instance serves a read first: pairs whose concatenation pid+format coincides, and a plain repeat
@@ -35,14 +43,14 @@ def main(tier, replay_payload=None):
         w_args["formats"] = list(w_args["formats"]) + [""]      # the empty format is a format of its own
     if tier == "thorough":
         w_args["docs"] = [b"", D_ONE, D_MULTI]
-    parts = dict(main=(w_args, menu_fn), big=(BIG_ARGS, metadata_menu))
+    parts = dict(main=(w_args, menu_fn), big=(BIG_ARGS, menu_fn))
     if replay_payload is not None:
         return make_multi_replayer(parts)(replay_payload)
     run = report.Run("C11", tier, technique="pathsym inductive step on the metadata cells; z3 validity of meta' = model")
     run.replayer = make_multi_replayer(parts)
     res = step.explore_steps(w_args, menu_fn)
     collect(run, res, MINE, w_args, menu_fn)
-    collect(run, step.explore_steps(BIG_ARGS, metadata_menu), MINE, BIG_ARGS, metadata_menu, part="big")
+    collect(run, step.explore_steps(BIG_ARGS, menu_fn), MINE, BIG_ARGS, menu_fn, part="big")
     run.functions = loader.function_lines(loader.load(), API_FUNCS)
     run.bounds = dict(pids=w_args["pids"], formats=w_args["formats"], documents=[len(d) for d in w_args.get("docs", [b"12345", b"1234567890123"])],
                       large_documents="two 20001-byte documents equal up to their last 12 bytes (4096-byte blocks)",
